@@ -214,6 +214,8 @@ PROFILES = {
     'selfnest': {'selfnest': True},
     # base histories for fault injection in which the program retries / falls back after a caught library error
     'faultretry': {'faultretry': True},
+    # more than 128 outputs rebuilt by a failing build (backup store beyond one directory)
+    'bulk': {'bulk': True},
     'swap': {'swap': True},
     # the cache file lives in a directory of its own that the build has to create (C12, C01, C02)
     'subcache': {'subcache': True, 'p_clean': 0.35, 'p_crash': 0.25, 'p_double_clean': 0.3},
@@ -876,6 +878,23 @@ def make_faultretry(seed, profile):
     return {'id': '%s-%d' % (profile, seed), 'cache': ['k'], 'universe': UNIVERSE, 'prog': prog, 'steps': steps}
 
 
+def make_bulk(seed, profile):
+    """Many outputs (C02): more than 128 files are rebuilt - i.e. moved aside, which takes the backup store into
+    its sub-directory scheme - by a build that then fails; the rollback has to put every one of them back."""
+    rnd = random.Random('bulk:%s' % seed)
+    n = rnd.choice([131, 200, 270])
+    paths = [['b%d' % (i % 7), 'f%d' % i] for i in range(n)]
+    prog = {'fW': W_, 'fW2': [{'s': 'write', 'c': 'c2', 'sz': 6}, {'s': 'return'}]}
+    calls1 = [{'s': 'bf', 'p': p, 'f': 'fW', 'args': [], 'cmp': 'METADATA'} for p in paths]
+    calls2 = [{'s': 'bf', 'p': p, 'f': 'fW2', 'args': [], 'cmp': 'METADATA'} for p in paths]
+    rnd.shuffle(calls2)
+    steps = [{'op': 'build', 'name': 'B', 'vers': {}, 'root': calls1 + [{'s': 'return'}]},
+             {'op': 'build', 'name': 'B', 'vers': {}, 'root': calls2 + [{'s': 'raise'}]},
+             {'op': 'build', 'name': 'B', 'vers': {}, 'root': calls1 + [{'s': 'return'}]},
+             {'op': 'clean', 'name': 'B'}]
+    return {'id': '%s-%d' % (profile, seed), 'cache': ['k'], 'universe': [], 'prog': prog, 'steps': steps}
+
+
 def make_scenario(seed, profile='general'):
     P = PROFILES[profile]
     if P.get('swap'):
@@ -886,6 +905,8 @@ def make_scenario(seed, profile='general'):
         return make_selfnest(seed, profile)
     if P.get('faultretry'):
         return make_faultretry(seed, profile)
+    if P.get('bulk'):
+        return make_bulk(seed, profile)
     if P.get('straggler'):
         return make_straggler(seed, profile)
     if P.get('threads_rb'):
